@@ -177,7 +177,7 @@ Obligations(c) == {
   O("OpEqualsMatrix.SPDEOpMatrix", "OpEqualsMatrix", "le", TolSameMap, "SPDEOpMatrix::evalDirect(e_i) = column i of Q + A' N A assembled from its public parts"),
   O("OpEqualsMatrix.SPDEOp", "OpEqualsMatrix", "le", TolSameMap, "SPDEOp::evalDirect(e_i) (matrix-free Q + A' N A) = the same assembled matrix"),
   O("OpEqualsMatrix.MultiCond", "OpEqualsMatrix", "le", TolSameMap, "evalDirect(e_i) of PrecisionOpMultiConditional and PrecisionOpMultiConditionalCs = column i of Q + A' D^-1 A assembled from Q (PrecisionOpCs::getQ), A (ProjMatrix) and the data variances"),
-  O("OpEqualsMatrix.MultiMatrix", "OpEqualsMatrix", "le", TolSameMap, "PrecisionOpMulti (matrix-free) = PrecisionOpMultiMatrix::getQ() on the basis"),
+  O("OpEqualsMatrix.MultiMatrix", "OpEqualsMatrix", "le", TolSameMap, "PrecisionOpMulti (matrix-free) = PrecisionOpMultiMatrix::getQ() on the basis, for one variable and for two correlated variables (sills 2, 1/2, 1/2, 1)"),
   \* ---- symmetric positive definite
   O("Symmetric.Q", "Symmetric", "le", TolSymmetric, "max |Q_ij - Q_ji| relative to max |Q_ij|"),
   O("Symmetric.Op", "Symmetric", "le", TolSameMap, "e_j' Op e_i = e_i' Op e_j for the matrix-free form"),
